@@ -419,6 +419,39 @@ def m_str_join(interp, sep, items):
     return out
 
 
+@_method(str, 'format')
+def m_str_format(interp, fmt, *args, **kwargs):
+    """'{}.{}'.format(a, b) with symbolic text / integer arguments: only automatic '{}' fields (and '{{' / '}}') are
+    modelled; anything else is outside the fragment."""
+    if isinstance(fmt, (Sym, FmtStr)) or kwargs:
+        raise Unsupported("str.format with a symbolic format string or keyword arguments")
+    out = FmtStr([], str)
+    i = 0
+    n = 0
+    while i < len(fmt):
+        ch = fmt[i]
+        if fmt.startswith('{{', i) or fmt.startswith('}}', i):
+            out = out.concat(ch)
+            i += 2
+        elif fmt.startswith('{}', i):
+            if n >= len(args):
+                raise IndexError("Replacement index %d out of range for positional args tuple" % n)
+            a = args[n]
+            n += 1
+            if isinstance(a, (SInt, SBool, SReal)):
+                a = FmtStr.lift(a) if hasattr(FmtStr, 'lift') and False else interp.call(str, (a,), {})
+            elif not isinstance(a, (str, SStr, FmtStr)):
+                a = str(a)
+            out = out.concat(a)
+            i += 2
+        elif ch in '{}':
+            raise Unsupported("str.format field other than '{}'")
+        else:
+            out = out.concat(ch)
+            i += 1
+    return out
+
+
 @_method(bytes, 'join')
 def m_bytes_join(interp, sep, items):
     if isinstance(items, (SBytes, FmtStr)) and sep == b'' and items.pytype is bytes:
